@@ -123,9 +123,9 @@ var c11model = porcupine.Model{
 
 func c11n(tier string) int {
 	if tier == "thorough" {
-		return 48
+		return 120
 	}
-	return 6
+	return 8
 }
 
 func c11run(c *fw.Ctx, idx int) {
